@@ -319,6 +319,8 @@ def run(prop, tier, seed, replay=None, jobs=None, keep=False):
             continue
         executed += 1
         vs = []
+        if isinstance(o.get("obs"), dict) and o["obs"].get("skipped"):
+            continue
         if o.get("terminated"):
             vs += P.judge_terminated(c, o) if hasattr(P, "judge_terminated") else \
                 [{"mech": "interpreter_terminated", "detail": "rc=%s %s" % (o.get("rc"), o.get("stderr_tail", "")[-600:])}]
@@ -349,6 +351,7 @@ def run(prop, tier, seed, replay=None, jobs=None, keep=False):
 
     # ---- evidence
     nontriv = set()
+    skipped = {}
     samples = []
     resid = {}
     for c in cases:
@@ -357,6 +360,9 @@ def run(prop, tier, seed, replay=None, jobs=None, keep=False):
             continue
         ob = o["obs"]
         nt = P.nontrivial(c, ob) if hasattr(P, "nontrivial") else True
+        if isinstance(ob, dict) and ob.get("skipped"):
+            skipped[ob["skipped"]] = skipped.get(ob["skipped"], 0) + 1
+            nt = False
         if nt:
             nontriv.add(case_fingerprint(c))
         if isinstance(ob, dict):
@@ -403,6 +409,7 @@ def run(prop, tier, seed, replay=None, jobs=None, keep=False):
             "timeouts": timeouts,
             "harness_errors": harness_errors,
             "known_findings_hit": {k: h["n"] for k, h in hits.items()},
+            "skipped_cases": skipped,
         }, **extra),
         "assumptions": getattr(P, "ASSUMPTIONS", []),
         "wall_s": round(wall, 2),
@@ -455,6 +462,8 @@ def run(prop, tier, seed, replay=None, jobs=None, keep=False):
         reasons.append("%d harness errors" % harness_errors)
     if timeouts > 0.05 * max(1, len(cases)):
         reasons.append("%d/%d cases timed out" % (timeouts, len(cases)))
+    if sum(skipped.values()) > 0.2 * max(1, len(cases)):
+        reasons.append("%d/%d cases skipped: %s" % (sum(skipped.values()), len(cases), skipped))
     if not replay and len(nontriv) < getattr(P, "MIN_NONTRIVIAL", 2):
         reasons.append("too few non-trivial cases (%d)" % len(nontriv))
     if reasons:
